@@ -159,18 +159,13 @@ impl FileReader for MemReader {
         path: &str,
         _parent: Option<Uuid>,
     ) -> Result<(Uuid, String), FileReaderError> {
-        // like a file system, "./x", "sub/../x" and "x" name the same file (a directory `sub` exists)
-        let mut norm = path;
-        loop {
-            if let Some(r) = norm.strip_prefix("./") {
-                norm = r;
-            } else if let Some(r) = norm.strip_prefix("sub/../") {
-                norm = r;
-            } else {
-                break;
-            }
-        }
-        let path = norm;
+        // like a file system: the path is relative to the directory of the including file, and
+        // "./x", "sub/../x" and "x" name the same file
+        let resolved = match _parent.and_then(|p| self.name_of(p)) {
+            Some(parent) => crate::paths::resolve(&parent, path),
+            None => crate::paths::normalise(path),
+        };
+        let path = resolved.as_str();
         self.imports += 1;
         if self.imports > self.import_budget {
             self.budget_exceeded = true;
